@@ -4,9 +4,9 @@ import MesonModel.Generated.PrecTable
 C17 — `mesonbuild/ast/printer.py`: `precedence_level` and `AstPrinter`, construct by construct.
 
 The visitor's mutable fields (`result`, `is_newline`) are the state `PS`; every `visit_*` method is
-one clause of `pr`. `AstPrinter` derives from `AstVisitor`, so a `ParenthesizedNode` is visited by
-`AstVisitor.visit_ParenthesizedNode`: nothing is printed for it, its inner node is printed — the
-only place parentheses are ever emitted is `maybe_parentheses`, called for the two children of an
+one clause of `pr`. Since /repo b64ff56 a `ParenthesizedNode` prints the parentheses the source has
+(`visit_ParenthesizedNode`); for operands that are NOT written in parentheses (nodes the rewriter builds
+itself) the only place parentheses are emitted is `maybe_parentheses`, called for the two children of an
 `ArithmeticNode`.
 -/
 namespace MesonModel.Rewrite
@@ -147,11 +147,17 @@ def argsStart (items : Items) (st : PS) : PS := if items.breakArgs then st.newli
 def argsFinish (items : Items) (st : PS) : PS :=
   if items.breakArgs then { st with out := reTailBreak st.out } else { st with out := reTailFlat st.out }
 
-/-- the `parens` argument of `maybe_parentheses` for the left / right operand of an `ArithmeticNode` -/
-def parensLeft (op : List Char) (l : Expr) : Bool := decide ((arithPrec? op).getD 0 > precLevel l)
+def Expr.isParen : Expr → Bool
+  | .paren .. => true
+  | _ => false
+
+/-- the `parens` argument of `maybe_parentheses` for the left / right operand of an `ArithmeticNode`;
+`maybe_parentheses` drops it for an operand that is a `ParenthesizedNode` (that one prints its own pair) -/
+def parensLeft (op : List Char) (l : Expr) : Bool :=
+  decide ((arithPrec? op).getD 0 > precLevel l) && !l.isParen
 def parensRight (op : List Char) (r : Expr) : Bool :=
-  decide ((arithPrec? op).getD 0 > precLevel r) ||
-    ((arithPrec? op).getD 0 == precLevel r && (op == sSub || op == sDiv || op == sMod))
+  (decide ((arithPrec? op).getD 0 > precLevel r) ||
+    ((arithPrec? op).getD 0 == precLevel r && (op == sSub || op == sDiv || op == sMod))) && !r.isParen
 
 mutual
 /-- `node.accept(printer)`; `visit_ArgumentNode` = `argsStart`, the loops `prItems`, `argsFinish`;
@@ -185,7 +191,7 @@ def pr : Expr → PS → PS
     (argsFinish items (prItems items alvl items.breakArgs (argsStart items (st.append (n ++ ['(']) lvl)))).append [')'] lvl
   | .ternary lvl c t f, st =>
     pr f ((pr t ((pr c st).appendPadded ['?'] lvl)).appendPadded [':'] lvl)
-  | .paren _ e, st => pr e st
+  | .paren lvl e, st => ((pr e (st.append ['('] lvl)).append [')'] lvl)
   | .assign lvl n e, st => pr e (st.append (n ++ [' ', '=', ' ']) lvl)
   | .plusassign lvl n e, st => pr e (st.append (n ++ [' ', '+', '=', ' ']) lvl)
   | .empty, st => st
